@@ -92,6 +92,13 @@ Sweep ==
      ELSE IF Ev.iter # iter + 1 THEN Reject("C09", "sweep: iteration counter did not advance by one")
      ELSE IF Ev.vtag # Ev.iter \/ Ev.gtag \notin {Ev.iter, -3} \/ Ev.htag \notin {Ev.iter, -3}
        THEN Reject("C09", "sweep: state differs from the uninterrupted run at the same iteration")
+     \* same trajectory, same stopping point: up to the reference's convergence iteration a sweep reports
+     \* convergence exactly when the uninterrupted run did (beyond it - a solve() call on an already
+     \* converged solver sweeps once more - only the trajectory is compared)
+     ELSE IF T.refconv > 0 /\ Ev.iter < T.refconv /\ Ev.conv
+       THEN Reject("C09", "sweep: convergence reported earlier than in the uninterrupted run")
+     ELSE IF T.refconv > 0 /\ Ev.iter = T.refconv /\ ~Ev.conv
+       THEN Reject("C09", "sweep: no convergence at the iteration where the uninterrupted run converged")
      ELSE /\ iter' = iter + 1
           /\ expectSave' = (freq > 0 /\ ~Ev.conv /\ (iter + 1) % freq = 0)
           /\ Step
@@ -129,11 +136,6 @@ End ==
   /\ IF ~incall THEN Reject("C09", "end: outside solve()")
      ELSE IF Ev.iter # iter \/ Ev.vtag # iter THEN Reject("C09", "end: returned state is not the state of the last sweep")
      ELSE IF freq > 0 /\ lastCall # iter THEN Reject("C12", "cadence: the last iteration of the call was not saved")
-     \* named deviation ResumeOfConvergedRunSweepsOnceMore: a solver restored from the checkpoint of
-     \* a converged iteration performs one further sweep when solve() is called again
-     \* (its sweeps are still held to the reference trajectory one by one, but where it stops is not)
-     ELSE IF Ev.final /\ rfrom < T.refconv /\ Ev.iter # T.refconv
-       THEN Reject("C09", "end: converged at a different iteration than the uninterrupted run")
      ELSE IF Ev.final /\ Ev.iter = T.refconv /\ Ev.ptag # T.refconv
        THEN Reject("C09", "end: final policy differs from the uninterrupted run")
      ELSE /\ incall' = FALSE /\ expectSave' = FALSE /\ Step
@@ -156,11 +158,11 @@ Listing ==
      IF T.freq0 /\ (Ev.exists \/ fin # {}) THEN Reject("C12", "frequency 0: a checkpoint directory was created or written")
      ELSE IF ~(fin \subseteq (due[d] \cup onDisk[d]))
        THEN Reject("C12", "listing: a committed step that is not a save point of the run")
-     ELSE IF Ev.quiescent /\ d = dir /\ ~T.freq0 /\ fin # expected /\ ~restoredOlder
+     ELSE IF Ev.quiescent /\ d = dir /\ freq > 0 /\ fin # expected /\ ~restoredOlder
        THEN Reject("C12", "retention: retained steps are not the max_checkpoints most recent save points")
-     ELSE IF Ev.quiescent /\ d = dir /\ ~T.freq0 /\ iter >= 0 /\ iter \notin fin /\ ~restoredOlder
+     ELSE IF Ev.quiescent /\ d = dir /\ freq > 0 /\ iter >= 0 /\ iter \notin fin /\ ~restoredOlder
        THEN Reject("C12", "retention: the last iteration of the most recent call is not among the retained steps")
-     ELSE IF Ev.quiescent /\ d = dir /\ ~T.freq0 /\ iter >= 0 /\ iter \notin fin /\ restoredOlder
+     ELSE IF Ev.quiescent /\ d = dir /\ freq > 0 /\ iter >= 0 /\ iter \notin fin /\ restoredOlder
        THEN Reject("C12", "KF: last iteration not saved after restoring an older step into the same directory")
      ELSE IF Ev.quiescent /\ d = dir /\ ~T.freq0 /\ Len(Ev.tmp) > 0 /\ ~T.hadcrash
        THEN Reject("C12", "listing: temporary directory left behind after pending writes finished")
@@ -223,7 +225,9 @@ RestoreFailed ==
      ELSE IF src = {}
      THEN (IF Ev.exc # "ValueError" THEN Reject("C10", "restore with no completed checkpoint must raise ValueError")
            ELSE Step /\ iter' = -1 /\ UNCHANGED <<incall, due, onDisk, durable, lastCall, prevCall, dir, freq, keep, isasync, crashed, expectSave, restoredOlder, rfrom>>)
-     ELSE IF Ev.req > 0 /\ Ev.req \notin src
+     \* an explicit step that is absent, or that retention was already deleting when the process was
+     \* killed (a half-deleted directory), may fail - it must never return data (see RestoreOK)
+     ELSE IF Ev.req > 0 /\ (Ev.req \notin src \/ (T.hadcrash /\ Ev.req \notin Largest(keep, src)))
      THEN Step /\ iter' = -1 /\ UNCHANGED <<incall, due, onDisk, durable, lastCall, prevCall, dir, freq, keep, isasync, crashed, expectSave, restoredOlder, rfrom>>
      ELSE Reject("C11", "restore: failed although a completed checkpoint exists")
 
